@@ -140,6 +140,8 @@ def wrap(z):
 def zbool(x):
     if isinstance(x, SymBool):
         return x.z
+    if isinstance(x, z3.BoolRef):
+        return x
     if isinstance(x, bool):
         return z3.BoolVal(x)
     if isinstance(x, Sym):
@@ -1179,6 +1181,13 @@ def run_path(eng, harness, prefix, ctx):
             eng.path_failures.append(Failure(
                 'harness', 'ShimGap', None,
                 str(e) + ' @ ' + ' <- '.join(traceback.format_tb(e.__traceback__)[-3:]).replace('\n', ' ')[:600],
+                tuple(eng.decisions)))
+        except Exception as e:  # bug in a harness (not in the code under test)
+            status = 'crash'
+            eng.path_failures.append(Failure(
+                'harness', 'harness crashed', None,
+                '%s: %s @ %s' % (type(e).__name__, str(e)[:200],
+                                 ' <- '.join(traceback.format_tb(e.__traceback__)[-3:]).replace('\n', ' ')[:500]),
                 tuple(eng.decisions)))
         except RecursionError as e:
             status = 'gap'
